@@ -219,8 +219,8 @@ msg_t ThreadLink::peak(void) const
  */
 char *ThreadLink::buffer(void) {return write_buffer;}
 /**
- * Access to write buffer length
+ * Access to write buffer length: buffer() has room for one message
  */
-size_t ThreadLink::buffer_size(void) const {return BufferSize;}
+size_t ThreadLink::buffer_size(void) const {return MaxMsg;}
 
 };
